@@ -18,7 +18,27 @@ def _on_alarm(signum, frame):
     raise Hang()
 
 
-def guarded(fn, seconds=3.0):
+def guarded(fn, seconds=0.5, confirm=1.0):
+    """Run fn() under a CPU-time limit; a call that exceeds it is run a second time under the
+    larger limit `confirm` and only reported as "hang" if it exceeds that too (a garbage
+    collection or a cold import inside the first attempt cannot fake a hang).  fn must therefore
+    be repeatable.  See _guarded1."""
+    r = _guarded1(fn, seconds)
+    if r[0] == "hang" and confirm:
+        r = _guarded1(fn, confirm)
+    return r
+
+
+def prepare_fork():
+    """Call in the parent before a fork-based pmap: moves everything allocated so far out of the
+    reach of the cyclic GC, so that a full collection in a worker does not touch (and copy) the
+    whole inherited heap in the middle of a guarded call."""
+    import gc
+    gc.collect()
+    gc.freeze()
+
+
+def _guarded1(fn, seconds):
     """Run fn() under a CPU-time limit.  Returns ("ok", value) | ("raised", exc) | ("hang", None).
     The limit counts the CPU time of this process only (ITIMER_VIRTUAL), so a loaded machine cannot
     fake a hang; it is a termination guard for pure computations (orders of magnitude above their
